@@ -94,6 +94,7 @@ func runC08(c *Ctx) {
 	c.r0811(pk)
 	c.r0812(pk)
 	c.r0813(pk)
+	c.r0814(pk)
 	for _, name := range []string{"Decimal", "Number"} {
 		fd := c.fn(r2, pk, name)
 		if fd == nil {
